@@ -13,7 +13,13 @@ Definition e_capability := bs "InvocationCapabilityError".
 Definition e_not_found := bs "HandlerNotFoundError".
 Definition e_execution := bs "HandlerExecutionError".
 
-Inductive hres := HOk | HFail.       (* the handler returns a value / an error *)
+(* the effects of a receipt (core/receipt/fx): the fork links in order and the optional join
+   (an effect given as an embedded invocation is named by that invocation's link) *)
+Definition effects := (list link * option link)%type.
+Definition no_fx : effects := ([], None).
+
+(* the handler returns a value together with effects / an error *)
+Inductive hres := HOk (fx : effects) | HFail.
 
 (* a handler registered with Provide(capability, handler) under an ability *)
 Record handler := mkHandler {
@@ -26,7 +32,7 @@ Record server := mkServer {
   s_ctx : ctx;                  (* can-issue, checker, resolvers, parser, authority = s_id's verifier *)
   s_service : list handler }.
 
-Record receipt := mkRcpt { rc_ran : link; rc_iss : did; rc_out : rclass }.
+Record receipt := mkRcpt { rc_ran : link; rc_iss : did; rc_out : rclass; rc_fx : effects }.
 (* what a handler was called with: the service key and the capability *)
 Definition call := (bstr * cap)%type.
 
@@ -43,9 +49,13 @@ Section Srv.
   Variable fuel : nat.
   Variable srv : server.
 
-  (* server.Run; None = the validator ran out of fuel (never a Go outcome) *)
+  (* server.Run; None = the validator ran out of fuel (never a Go outcome).
+     Effects: only the receipt issued from the transaction of a handler that returned a value
+     is given receipt.WithJoin(fx.Join()) / receipt.WithFork(fx.Fork()...); every other receipt
+     (capability count, no handler, Unauthorized — a transaction without effects —, handler
+     error, a value that cannot be issued) is receipt.Issue(id, failure, ran) with no option. *)
   Definition run (inv : dlg) : option (receipt * list call) :=
-    let mk := fun o => mkRcpt (d_link inv) (s_id srv) o in
+    let mk := fun o => mkRcpt (d_link inv) (s_id srv) o no_fx in
     let caps := match tok U inv with Some t => t_caps t | None => [] end in
     match caps with
     | [c] =>
@@ -55,7 +65,10 @@ Section Srv.
         match fst (access U (s_ctx srv) fuel (h_desc h) inv) with
         | AOk a =>
           let cp := node_cap a in
-          Some (mk (match h_result h cp with HOk => ROk | HFail => RErr e_execution end), [(h_can h, cp)])
+          Some (match h_result h cp with
+                | HOk fx => mkRcpt (d_link inv) (s_id srv) ROk fx
+                | HFail => mk (RErr e_execution)
+                end, [(h_can h, cp)])
         | AErr _ => Some (mk (RErr e_unauthorized), [])
         | AFuel => None
         end
@@ -183,13 +196,13 @@ Section C08.
   Theorem run_unauthorized inv t c h e :
     tok U inv = Some t -> t_caps t = [c] -> find_handler (r_can c) (s_service srv) = Some h ->
     fst (access U (s_ctx srv) fuel (h_desc h) inv) = AErr e ->
-    run U fuel srv inv = Some (mkRcpt (d_link inv) (s_id srv) (RErr e_unauthorized), []).
+    run U fuel srv inv = Some (mkRcpt (d_link inv) (s_id srv) (RErr e_unauthorized) no_fx, []).
   Proof. intros T CP FH A. unfold run. rewrite T, CP, FH, A. reflexivity. Qed.
 
   (* zero or several capabilities: InvocationCapabilityError, nothing runs *)
   Theorem run_cap_count inv t :
     tok U inv = Some t -> length (t_caps t) <> 1%nat ->
-    run U fuel srv inv = Some (mkRcpt (d_link inv) (s_id srv) (RErr e_capability), []).
+    run U fuel srv inv = Some (mkRcpt (d_link inv) (s_id srv) (RErr e_capability) no_fx, []).
   Proof.
     intros T L. unfold run. rewrite T. destruct (t_caps t) as [|c [|c2 r]]; cbn in L; try reflexivity.
     contradiction.
@@ -198,7 +211,7 @@ Section C08.
   (* an ability nobody handles: HandlerNotFoundError, nothing runs *)
   Theorem run_not_found inv t c :
     tok U inv = Some t -> t_caps t = [c] -> find_handler (r_can c) (s_service srv) = None ->
-    run U fuel srv inv = Some (mkRcpt (d_link inv) (s_id srv) (RErr e_not_found), []).
+    run U fuel srv inv = Some (mkRcpt (d_link inv) (s_id srv) (RErr e_not_found) no_fx, []).
   Proof. intros T CP FH. unfold run. rewrite T, CP, FH. reflexivity. Qed.
 
   (* every receipt is issued by the server for the invocation it ran *)
@@ -209,7 +222,55 @@ Section C08.
     destruct (match tok U inv with Some t => t_caps t | None => [] end) as [|c [|c2 r]];
       try (inversion H; subst; auto; fail).
     destruct (find_handler (r_can c) (s_service srv)) as [h|]; [|inversion H; subst; auto].
-    destruct (fst (access U (s_ctx srv) fuel (h_desc h) inv)); inversion H; subst; auto.
+    destruct (fst (access U (s_ctx srv) fuel (h_desc h) inv)) as [a|e|]; [| inversion H; subst; auto | discriminate].
+    inversion H; subst. destruct (h_result h (node_cap a)); auto.
+  Qed.
+
+  (* ---- effects ---- *)
+
+  (* the receipt of an authorized invocation whose handler returned a value with effects fx
+     is the ok receipt carrying exactly fx: the same forks in the same order, the same join *)
+  Theorem run_receipt_effects inv rc calls t c h a fx :
+    run U fuel srv inv = Some (rc, calls) ->
+    tok U inv = Some t -> t_caps t = [c] -> find_handler (r_can c) (s_service srv) = Some h ->
+    fst (access U (s_ctx srv) fuel (h_desc h) inv) = AOk a ->
+    h_result h (node_cap a) = HOk fx ->
+    rc_out rc = ROk /\ rc_fx rc = fx /\ calls = [(h_can h, node_cap a)].
+  Proof.
+    intros H T CP FH A HR. unfold run in H. rewrite T, CP, FH, A, HR in H.
+    inversion H; subst. auto.
+  Qed.
+
+  (* a receipt that does not carry a value carries no effects *)
+  Theorem run_no_effects_without_success inv rc calls :
+    run U fuel srv inv = Some (rc, calls) -> rc_out rc <> ROk -> rc_fx rc = no_fx.
+  Proof.
+    unfold run. intros H.
+    destruct (match tok U inv with Some t => t_caps t | None => [] end) as [|c [|c2 r]];
+      try (inversion H; subst; auto; fail).
+    destruct (find_handler (r_can c) (s_service srv)) as [h|]; [|inversion H; subst; auto].
+    destruct (fst (access U (s_ctx srv) fuel (h_desc h) inv)) as [a|e|]; [| inversion H; subst; auto | discriminate].
+    inversion H; subst. destruct (h_result h (node_cap a)); cbn [rc_out rc_fx]; [|auto].
+    intros X. exfalso. apply X. reflexivity.
+  Qed.
+
+  (* whatever a receipt carries as effects is what the handler that ran for it returned:
+     no effects, or the effects of the single call made *)
+  Theorem run_effects_from_handler inv rc calls :
+    run U fuel srv inv = Some (rc, calls) ->
+    rc_fx rc = no_fx \/
+    exists h a t c, tok U inv = Some t /\ t_caps t = [c] /\
+      find_handler (r_can c) (s_service srv) = Some h /\
+      fst (access U (s_ctx srv) fuel (h_desc h) inv) = AOk a /\
+      calls = [(h_can h, node_cap a)] /\ rc_out rc = ROk /\ h_result h (node_cap a) = HOk (rc_fx rc).
+  Proof.
+    unfold run. intros H.
+    destruct (tok U inv) as [t|] eqn:T; [|inversion H; auto].
+    destruct (t_caps t) as [|c [|c2 r]] eqn:CP; try (inversion H; auto; fail).
+    destruct (find_handler (r_can c) (s_service srv)) as [h|] eqn:FH; [|inversion H; auto].
+    destruct (fst (access U (s_ctx srv) fuel (h_desc h) inv)) as [a|e|] eqn:A; [| inversion H; auto | discriminate].
+    destruct (h_result h (node_cap a)) as [fx|] eqn:HR; inversion H; subst; [|auto].
+    right. exists h, a, t, c. cbn [rc_out rc_fx]. repeat split; auto.
   Qed.
 End C08.
 
@@ -348,6 +409,81 @@ Section C09.
       destruct (A2 l Hin) as [r2 [cs2 [G2 [_ [_ R2]]]]].
       rewrite G1, G2. congruence.
     - rewrite (B1 l Hn), (B2 l Hn). reflexivity.
+  Qed.
+
+  (* ---- effects, for a whole request and under any schedule ---- *)
+
+  (* every entry of the report is the receipt Run produced for the invocation it is filed under *)
+  Lemma execute_entry_from_run vis exec sigma rep calls :
+    (forall rs, Permutation rs (sigma rs)) ->
+    execute_sched U fuel srv vis exec sigma = ExecOk rep calls ->
+    forall l r, rget l rep = Some r ->
+      In l exec /\ exists cs, run U fuel srv (mkDlg l vis) = Some (r, cs).
+  Proof.
+    intros Hs E l r G.
+    destruct (execute_one_receipt_each _ _ _ _ _ Hs E) as [A [B _]].
+    destruct (in_dec N.eq_dec l exec) as [Hin|Hn].
+    - split; [exact Hin|]. destruct (A l Hin) as [r' [cs [G' [_ [_ R]]]]].
+      rewrite G in G'. inversion G'; subst r'. exists cs. exact R.
+    - rewrite (B l Hn) in G. discriminate.
+  Qed.
+
+  (* an authorized invocation of the request whose handler returned (a value, fx): the receipt
+     filed under it in the report is ok and carries exactly fx — forks in order, join *)
+  Theorem execute_receipt_effects vis exec sigma rep calls :
+    (forall rs, Permutation rs (sigma rs)) ->
+    execute_sched U fuel srv vis exec sigma = ExecOk rep calls ->
+    forall l t c h a fx, In l exec ->
+      tok U (mkDlg l vis) = Some t -> t_caps t = [c] ->
+      find_handler (r_can c) (s_service srv) = Some h ->
+      fst (access U (s_ctx srv) fuel (h_desc h) (mkDlg l vis)) = AOk a ->
+      h_result h (node_cap a) = HOk fx ->
+      exists r, rget l rep = Some r /\ rc_ran r = l /\ rc_out r = ROk /\ rc_fx r = fx.
+  Proof.
+    intros Hs E l t c h a fx Hin T CP FH A HR.
+    destruct (execute_one_receipt_each _ _ _ _ _ Hs E) as [X _].
+    destruct (X l Hin) as [r [cs [G [RAN [_ R]]]]].
+    destruct (run_receipt_effects _ _ _ _ _ _ _ _ _ _ _ R T CP FH A HR) as [O [F _]].
+    exists r. auto.
+  Qed.
+
+  (* no receipt of the report carries effects unless it carries a value *)
+  Theorem execute_no_effects_without_success vis exec sigma rep calls :
+    (forall rs, Permutation rs (sigma rs)) ->
+    execute_sched U fuel srv vis exec sigma = ExecOk rep calls ->
+    forall l r, rget l rep = Some r -> rc_out r <> ROk -> rc_fx r = no_fx.
+  Proof.
+    intros Hs E l r G NO.
+    destruct (execute_entry_from_run _ _ _ _ _ Hs E l r G) as [_ [cs R]].
+    eapply run_no_effects_without_success; eauto.
+  Qed.
+
+  (* ... and the effects it carries are those its handler returned for the capability it was called with *)
+  Theorem execute_effects_from_handler vis exec sigma rep calls :
+    (forall rs, Permutation rs (sigma rs)) ->
+    execute_sched U fuel srv vis exec sigma = ExecOk rep calls ->
+    forall l r, rget l rep = Some r -> rc_fx r <> no_fx ->
+    exists h a t c, tok U (mkDlg l vis) = Some t /\ t_caps t = [c] /\
+      find_handler (r_can c) (s_service srv) = Some h /\
+      fst (access U (s_ctx srv) fuel (h_desc h) (mkDlg l vis)) = AOk a /\
+      rc_out r = ROk /\ h_result h (node_cap a) = HOk (rc_fx r).
+  Proof.
+    intros Hs E l r G NF.
+    destruct (execute_entry_from_run _ _ _ _ _ Hs E l r G) as [_ [cs R]].
+    destruct (run_effects_from_handler _ _ _ _ _ _ R) as [X|[h [a [t [c [T [CP [FH [A [_ [O HR]]]]]]]]]]]; [contradiction|].
+    exists h, a, t, c. repeat split; assumption.
+  Qed.
+
+  (* the effects (and the class) of every receipt do not depend on the schedule *)
+  Corollary execute_effects_schedule_independent vis exec sigma1 sigma2 rep1 rep2 c1 c2 :
+    (forall rs, Permutation rs (sigma1 rs)) -> (forall rs, Permutation rs (sigma2 rs)) ->
+    execute_sched U fuel srv vis exec sigma1 = ExecOk rep1 c1 ->
+    execute_sched U fuel srv vis exec sigma2 = ExecOk rep2 c2 ->
+    forall l, option_map rc_fx (rget l rep1) = option_map rc_fx (rget l rep2) /\
+              option_map rc_out (rget l rep1) = option_map rc_out (rget l rep2).
+  Proof.
+    intros H1 H2 E1 E2 l.
+    rewrite (execute_schedule_independent _ _ _ _ _ _ _ _ H1 H2 E1 E2 l). split; reflexivity.
   Qed.
 
   (* an invocation listed several times is executed once *)
